@@ -1059,6 +1059,16 @@ impl Program {
         Ok(())
     }
 
+    /// Rebuilds derived tables (prefix-code words) after deserialisation.
+    pub fn rebuild(&mut self) {
+        for f in &mut self.frames {
+            for ma in f.modular.global.iter_mut().chain(std::iter::once(&mut f.modular.local)) {
+                ma.tree_coder.rebuild();
+                ma.coder.rebuild();
+            }
+        }
+    }
+
     /// Encodes the whole codestream.
     pub fn encode(&self) -> Result<(Vec<u8>, StreamMap), String> {
         let mut w = BitWriter::new();
